@@ -23,6 +23,11 @@ def resPAns : Res → PAns
   | .none => .none
   | .panic => .panic
 
+/-- answers of the `TryFrom<int|float>` impls -/
+def pansT : Option (Except OverflowErr Buf) → PAns
+  | none => .panic
+  | some r => pans (liftOverflow r)
+
 def oans : Option Int → OAns
   | some v => .some v
   | none => .none
@@ -91,6 +96,11 @@ def answerWith (io : Io) (req : List String) : Option (List String) :=
       match fromInt T I v with
       | .ok b => pure [io.showPAns (.ok b.toBytes), io.hex (toText T b), io.showOAns (oans (toInt T b I))]
       | r => pure [io.showPAns (resPAns r)]
+  | ["from_int@t", t, i, v] => do
+      let T ← Ty.ofName t; let I ← Spec.IntTy.ofName i; let v ← io.parseInt v
+      match fromIntT T I v with
+      | some (.ok b) => pure [io.showPAns (.ok b.toBytes), io.hex (toText T b), io.showOAns (oans (toInt T b I))]
+      | r => pure [io.showPAns (pansT r)]
   | ["to_float", t, b, f] => do
       let T ← Ty.ofName t; let b ← io.unhex b; let B ← Spec.BinFmt.ofName f
       let r := toFloat (Buf.ofBytes b) B
@@ -105,6 +115,14 @@ def answerWith (io : Io) (req : List String) : Option (List String) :=
         pure [io.showPAns (.ok b.toBytes), io.hex (toText T b),
               if T == .b32 && B.prec == 53 && back.isNone then "panic" else io.showFAns (B.width / 4) (oans (back.map Int.ofNat))]
       | r => pure [io.showPAns (resPAns r)]
+  | ["from_float@t", t, f, bits, ryu] => do
+      let T ← Ty.ofName t; let B ← Spec.BinFmt.ofName f; let bits ← io.hexNat bits; let ryu ← io.unhex ryu
+      match fromFloatT T B bits ryu with
+      | some (.ok b) =>
+        let back := toFloat b B
+        pure [io.showPAns (.ok b.toBytes), io.hex (toText T b),
+              if T == .b32 && B.prec == 53 && back.isNone then "panic" else io.showFAns (B.width / 4) (oans (back.map Int.ofNat))]
+      | r => pure [io.showPAns (pansT r)]
   | ["bytes", _, b] => do
       let b ← io.unhex b
       pure ["api", io.hex (Buf.ofBytes b).toBytes, io.hex b.reverse, io.hex b.reverse]
